@@ -186,7 +186,9 @@ Theorem c10_any_capture_length : forall f n, wf_frame f = true ->
        alookup (cols m) k = None \/
        exists va vr, alookup (cols m) k = Some va /\ alookup (cols (ref_frame f)) k = Some vr /\ vprefix va vr) /\
     (exists k, mgetLI m cLayerStack = firstn k (map (fun x => layer_code (fst x)) (frame_layers f)) /\
-               length (mgetLI m cLayerSize) = length (mgetLI m cLayerStack)) /\
+               length (mgetLI m cLayerSize) = length (mgetLI m cLayerStack) /\
+               (* all sizes but possibly the last one -- the header the capture ends in -- are the headers' true sizes *)
+               firstn (k - 1) (mgetLI m cLayerSize) = firstn (k - 1) (map snd (frame_layers f))) /\
     (* ... and every column written by a header that lies COMPLETELY inside the capture (the first j headers, whenever
        their bytes fit into what was captured; `applied`: the columns they write, none once inside a tunnel) HAS the
        complete frame's value: "agrees with the model on every field whose header lies completely inside the capture" *)
